@@ -43,6 +43,10 @@ PROPS = {
              {"checks": 30000, "timeout": 300},
              {"checks": 100000, "shards": 16, "timeout": 1800},
              assumptions=COMMON_ASSUME),
+    "C13": P("TestC13", "exploration",
+             {"checks": 8000, "timeout": 300},
+             {"checks": 30000, "shards": 16, "timeout": 1800},
+             assumptions=COMMON_ASSUME),
 }
 
 TRUST = "Trusted base: Go runtime, net/http, compress/*, google.golang.org/protobuf, rapid, and the harness's own reference wire layer as the reading of the protocol specs. Generated search: absence of violations is evidence over the explored cases only."
@@ -86,6 +90,11 @@ META = {
     "C12": {
         "technique": 'property-based testing (rapid): generated timeout header strings (boundary grids per encoding, malformed and none) through the real Transcoder; exact big-rational comparison of client and backend deadlines with an independent grammar per target encoding',
         "level_text": 'Generated exploration of every digit count and unit of the three timeout encodings across all client forms and target protocols; never-extended, shortfall below the target unit, absent-stays-absent and malformed-rejected-before-dispatch are asserted with exact arithmetic.',
+        "level_note": TRUST,
+    },
+    "C13": {
+        "technique": "property-based testing (rapid): generated pass-through and unknown-endpoint requests; field-by-field snapshot comparison of the request given to ServeHTTP with what the downstream handler observed, and of the handler's response with what the client's writer received",
+        "level_text": 'Generated exploration of requests that need no conversion and of unmatched paths, with control headers of every protocol, query strings, arbitrary bodies, declared/undeclared lengths and HTTP versions; identity of request and response across the transcoder is the oracle.',
         "level_note": TRUST,
     },
 }
